@@ -700,7 +700,7 @@ def run_case(ctx, case):
         if failed(o):
             rc = rough_class(fmt, item)
             seen = ROUGH_SEEN.get(rc, 0)
-            if o["kind"] != "panic" and seen >= MAX_SHRINKS_PER_ROUGH_CLASS:
+            if o["kind"] != "panic" and seen >= MAX_SHRINKS_PER_ROUGH_CLASS and ctx.corpus_idx is None:
                 # same character classes / options as a failure this process already shrunk and reported
                 ctx.count("round_trip_failures_not_shrunk(same class as a reported one)")
                 continue
